@@ -12,6 +12,7 @@ RULE = ("bounded-exhaustive: every chain source -> op of 5 sources x 22 operator
         "executor with vector sizes {1,2,4,8,128}; the output is wrapped in a WriterFunc so that shard boundaries and the "
         "end-of-stream are observed; compared per shard with the reference (as a list where the program fixes the order, "
         "else as a multiset); non-trivial = contains a shuffle or at least 3 operators")
+BM_NOTE = "plus 60 (quick) / 1500 (thorough) programs on bigmachine testsystem clusters"
 TRUST = ["user functions come from fixed families evaluated identically on both sides (affine maps, modular predicates, "
          "replicating flatmaps, + and max combiners)"]
 ASSUMPTIONS = ["failure-free runs (faults are C02/C06)", "Head is applied only where the program fixes the row order (wfNodes)",
@@ -123,6 +124,18 @@ def gen(r, tier):
         cfg = "local CH%d P%d" % (r.choice([1, 2, 4, 8, 128, 128]), r.rng(1, 4))
         p, sh, ordr, isscan = progen.gen_program(r, 8, e2e=True, big=(i % 7 == 0))
         yield "%s ;; %s" % (cfg, p)
+    # the same meaning on the cluster executor (C04 varies the strategy systematically; here: that a program's rows are the
+    # prescribed ones there at all — several machines, machine combiners, many reduce tasks per machine)
+    n = 60 if tier == "quick" else 1500
+    for i in range(n):
+        cfg = r.choice(["bm M2 P4", "bm M2 P4 MC", "bm M1 P3", "bm M4 P8 MC CH8", "bm M2 P6 MC"])
+        if i % 2 == 0:
+            # several machines with several tasks each (machine combiners shared by the tasks of a machine)
+            yield "%s ;; N0=lines %d %d ; N1=map N0 mod%d ; N2=reduce N1 add ; OUT N2" % (
+                r.choice(["bm M4 P8 MC", "bm M4 P8 MC", "bm M2 P4 MC", "bm M2 P6 MC CH8", "bm M4 P12 MC"]), r.choice([8, 12]), r.choice([400, 4000]), r.choice([12, 64]))
+        else:
+            p, sh, ordr, isscan = progen.gen_program(r, 7, e2e=True, big=(i % 5 == 0))
+            yield "%s ;; %s" % (cfg, p)
 
 
 def nontrivial(case, obs):
